@@ -618,6 +618,10 @@ def one(ctx, item):
         loci = 2 if u < 0.12 else 1
         cfg = rand_cfg17(rng, quick, single_epoch=(loci == 1 and u > 0.8), loci=loci)
         hist = rand_history(rng, cfg, quick)
+        if cfg.get('start_time') and rng.random() < 0.6:
+            # a windowed Coalescent asked for its raw moments first and its central moment afterwards (slots filled in that order)
+            d = rng.choice(['th', 'tbl'])
+            hist = [(f'{d}.mean',), (f'{d}.m2',), (f'{d}.var',)] + hist
         eval_history(ctx, pg, mode, cfg, hist)
     elif mode in ('shared', 'unshared'):
         tpl, psets, steps = rand_shared(rng, quick)
